@@ -287,8 +287,11 @@ def rule_c(ctx):
         ctx.missing("SeqFuture::push")
     else:
         ps = list(pb.calls("std::vec::Vec::push$"))
+        from .inventory import STD_MUT
+        # one push of the argument, unconditionally; no other content-changing call on the vector (reserve / len / capacity are fine)
+        other_mut = [s for s in pb.calls(STD_MUT) if s.key() != (ps[0].key() if ps else None)]
         ok = len(ps) == 1 and pb.origins(ps[0].args()[1], ps[0]) == frozenset([("arg", 2)]) and not pb.conditions(ps[0]) and \
-            len(list(pb.calls())) == 1
+            not other_mut and not pb.in_loop(ps[0])
         ctx.ob("push-appends", ok, "SeqFuture::push appends the future at the end", ps)
 
 
